@@ -306,6 +306,15 @@ def build_harness_profile(profile):
     return os.path.join(HARNESS_DIR, "target", profile, "ephar") if rc == 0 else None
 
 
+def _dump_ops(lines):
+    """VERIF_DUMP_OPS=<file>: append every operation line sent to the implementation (tools/coverage.py
+    replays them on a coverage-instrumented build to see which code of the crate the generators reach)"""
+    f = os.environ.get("VERIF_DUMP_OPS")
+    if f and lines:
+        with open(f, "a") as fh:
+            fh.write("\n".join(lines) + "\n")
+
+
 def run_cases_with(exe, cases):
     """fill case.impl from another build of the harness (model outputs are left as they are)"""
     impl_lines, impl_idx = [], []
@@ -338,6 +347,7 @@ def run_cases(cases, impl_env=None):
                 impl_idx.append((ci, li))
                 model_lines.append(line)
                 model_idx.append((ci, li))
+    _dump_ops(impl_lines)
     impl_out = _run_stream(EPHAR, impl_lines, True, impl_env) if impl_lines else []
     model_out = _run_stream(EPDRV, model_lines, False) if model_lines else []
     for (ci, li), o in zip(impl_idx, impl_out):
